@@ -390,11 +390,17 @@ func (c *Client) sendWithWriter(writer io.Writer, packet []byte) error {
 
 // Loop: Receive data from server
 func (c *Client) recv(keepaliveQuit chan<- struct{}) {
-	defer close(keepaliveQuit)
+	// The keepalive of this connection stops as soon as the connection is known to be over, before the loss is
+	// reported: the Disconnected handler of a StreamManager only returns once a new session is up, and a keepalive
+	// still ticking meanwhile pings a transport that is being reconnected (a nil connection after a refused dial).
+	var stopOnce sync.Once
+	stopKeepalive := func() { stopOnce.Do(func() { close(keepaliveQuit) }) }
+	defer stopKeepalive()
 
 	for {
 		val, err := stanza.NextPacket(c.transport.GetDecoder())
 		if err != nil {
+			stopKeepalive()
 			c.ErrorHandler(err)
 			c.disconnected(c.Session.SMState)
 			return
@@ -416,6 +422,7 @@ func (c *Client) recv(keepaliveQuit chan<- struct{}) {
 			}, H: c.Session.SMState.Inbound}
 			err = c.Send(answer)
 			if err != nil {
+				stopKeepalive()
 				c.ErrorHandler(err)
 				c.disconnected(c.Session.SMState)
 				return
@@ -424,6 +431,7 @@ func (c *Client) recv(keepaliveQuit chan<- struct{}) {
 			// TCP messages should arrive in order, so we can expect to get nothing more after this occurs
 			c.transport.ReceivedStreamClose()
 			// The stream is over, whoever closed it first: report it like any other loss of connection.
+			stopKeepalive()
 			c.disconnected(c.Session.SMState)
 			return
 		case stanza.Message, stanza.Presence, *stanza.IQ:
@@ -445,6 +453,13 @@ func keepalive(transport Transport, interval time.Duration, quit <-chan struct{}
 	for {
 		select {
 		case <-ticker.C:
+			// A tick and the end of the session can be ready together: the end wins, no ping after it.
+			select {
+			case <-quit:
+				ticker.Stop()
+				return
+			default:
+			}
 			if err := transport.Ping(); err != nil {
 				// When keepalive fails, we force close the transport. In all cases, the recv will also fail.
 				ticker.Stop()
